@@ -56,6 +56,15 @@ let flush_forest (units : (n * n * n * pdie list) list) =
         (String.concat " " (List.map (fun (k, ch) -> Printf.sprintf "%d@%s" (int_of_n (ForestM.d_off k))
                                         (String.concat "." (List.map (fun c -> string_of_int (int_of_n c)) ch))) ks)))
     (ForestM.raw_entries f);
+  (* what the model of the cooked entry producer hands out for every unit that is listed *)
+  List.iter (fun u -> match u.ForestM.u_root with
+      | Some r ->
+        Printf.printf "ENTRIES %d %s\n" (int_of_n u.ForestM.u_off)
+          (String.concat " " (List.map (fun (k, ch) -> Printf.sprintf "%d@%s" (int_of_n (ForestM.d_off k))
+                                          (String.concat "." (List.map (fun c -> string_of_int (int_of_n c)) ch)))
+                                (ChildIterM.entries cfuel f r)))
+      | None -> ())
+    (ForestM.cooked_units f);
   print_endline "END"
 
 let run () =
